@@ -63,8 +63,9 @@ pub struct Obs {
     pub construct: Option<String>,
     /// result of `collect()` after each prefix of the history (index 0 = start only)
     pub prefixes: Vec<OpResult<Vec<usize>>>,
-    /// per op, per probed face: did the singleton selection keep the face?
-    pub singles: Vec<Vec<OpResult<bool>>>,
+    /// per op, per probed face: the code's own verdict on the face taken alone, by three routes:
+    /// Keep on {f} keeps it, Remove on {f} removes it, Add from the empty selection adds it
+    pub singles: Vec<Vec<OpResult<[bool; 3]>>>,
     pub created: Option<OpResult<M>>,
     pub created_direct: Option<OpResult<M>>,
 }
@@ -220,14 +221,26 @@ fn gen_crit(rng: &mut Rng, mesh: &M, nrefs: usize) -> Crit {
         } else {
             scale(unit([rng.normal(), rng.normal(), rng.normal() + 1e-3]), rng.uniform(0.5, 3.0))
         };
-        Crit::Facing { dir, angle: rng.uniform(0.2, 2.9) }
+        // mostly thresholds that split the faces, sometimes the extremes (nothing / everything)
+        let angle = match rng.below(14) {
+            0 => 0.0,
+            1 => 4.0,
+            2 => std::f64::consts::PI,
+            3 => std::f64::consts::FRAC_PI_2,
+            _ => rng.uniform(0.2, 2.9),
+        };
+        Crit::Facing { dir, angle }
     } else {
         Crit::Near {
             reference: rng.below(nrefs),
             all: rng.chance(0.5),
-            dist: size * rng.log_uniform(0.01, 0.6),
-            planar: if rng.chance(0.4) { Some(size * rng.log_uniform(0.001, 0.3)) } else { None },
-            angle: if rng.chance(0.6) { Some(rng.uniform(0.1, 3.0)) } else { None },
+            dist: match rng.below(12) {
+                0 => 0.0,
+                1 => size * 100.0,
+                _ => size * rng.log_uniform(0.01, 0.6),
+            },
+            planar: if rng.chance(0.4) { Some(if rng.chance(0.1) { 0.0 } else { size * rng.log_uniform(0.001, 0.3) }) } else { None },
+            angle: if rng.chance(0.6) { Some(match rng.below(12) { 0 => 0.0, 1 => 4.0, _ => rng.uniform(0.1, 3.0) }) } else { None },
         }
     }
 }
@@ -278,6 +291,10 @@ fn below(value: f64, limit: f64, band: f64) -> Tri {
     }
 }
 
+/// acos is ill-conditioned at 0 and pi: a rounding error of one ulp in the cosine of two nearly
+/// parallel normals is 1.5e-8 in the angle, so angles within 1e-7 of a threshold are not judged.
+const ANGLE_BAND: f64 = 1e-7;
+
 fn angle_between(a: [f64; 3], b: [f64; 3]) -> f64 {
     let c = dot(a, b) / (norm(a) * norm(b));
     c.clamp(-1.0, 1.0).acos()
@@ -293,12 +310,18 @@ struct Model<'a> {
 impl Model<'_> {
     /// The documented criterion, recomputed for one face with no memo and no other face involved.
     fn pred(&self, face: usize, crit: &Crit) -> Tri {
+        // a face without a usable normal is outside what the documented criterion defines
+        let ft = self.mesh.tri(face);
+        let (fe1, fe2) = (sub(ft[1], ft[0]), sub(ft[2], ft[0]));
+        if norm(cross(fe1, fe2)) <= 1e-9 * norm(fe1) * norm(fe2) {
+            return Tri::Unknown;
+        }
         let n = match self.mesh.normal(face) {
             Some(n) => n,
             None => return Tri::Unknown,
         };
         match crit {
-            Crit::Facing { dir, angle } => below(angle_between(n, *dir), *angle, 1e-9),
+            Crit::Facing { dir, angle } => below(angle_between(n, *dir), *angle, ANGLE_BAND),
             Crit::Near { reference, all, dist, planar, angle } => {
                 let rm = &self.refs[*reference];
                 let rmm = &self.refs_m[*reference];
@@ -333,7 +356,7 @@ impl Model<'_> {
                                     ok = tri_and(ok, below(in_plane, *pt, band));
                                 }
                                 if let Some(at) = angle {
-                                    ok = tri_and(ok, below(angle_between(n, rn), *at, 1e-9));
+                                    ok = tri_and(ok, below(angle_between(n, rn), *at, ANGLE_BAND));
                                 }
                             }
                             None => {
@@ -434,6 +457,17 @@ impl Property for C14 {
             mesh = pose.apply_mesh(&mesh);
         }
         let mut label = label;
+        // now and then one zero-area face (two existing vertices and the midpoint between them):
+        // it has no normal, the model says nothing about it, the code must still treat it the same
+        // way in every mode and in every context
+        if rng.chance(0.1) {
+            let f = mesh.f[rng.below(mesh.f.len())];
+            let (a, b) = (mesh.v[f[0] as usize], mesh.v[f[1] as usize]);
+            mesh.v.push(scale(add(a, b), 0.5));
+            let m = (mesh.v.len() - 1) as u32;
+            mesh.f.push([f[0], m, f[1]]);
+            label.push_str("+zero-area-face");
+        }
         // vertices no face refers to are legal; after renumbering they sit anywhere in the buffer
         let mut extra = 0;
         if rng.chance(0.3) {
@@ -464,6 +498,11 @@ impl Property for C14 {
         }
         let nrefs = 1 + rng.below(2);
         let mut refs = Vec::new();
+        if rng.chance(0.1) {
+            // the mesh compared with itself: every vertex projects at distance zero
+            refs.push(mesh.compact());
+            label.push_str("+self-reference");
+        }
         while refs.len() < nrefs {
             let mut r = gen_reference(rng, &mesh);
             if nondegenerate(&r) {
@@ -553,10 +592,13 @@ impl Property for C14 {
             let mut row = Vec::new();
             for &face in &sc.probe_faces {
                 row.push(sim.op("face_select(single)..collect", b, || {
-                    let f = mesh.face_select(Selection::Indices(vec![face]));
                     let keep = Op { crit: op.crit.clone(), mode: Mode::Keep };
-                    let r = apply(f, &keep, &refs).collect();
-                    r == vec![face]
+                    let kept = apply(mesh.face_select(Selection::Indices(vec![face])), &keep, &refs).collect() == vec![face];
+                    let remove = Op { crit: op.crit.clone(), mode: Mode::Remove };
+                    let removed = apply(mesh.face_select(Selection::Indices(vec![face])), &remove, &refs).collect().is_empty();
+                    let add = Op { crit: op.crit.clone(), mode: Mode::Add };
+                    let added = apply(mesh.face_select(Selection::None), &add, &refs).collect().contains(&face);
+                    [kept, removed, added]
                 }));
             }
             singles.push(row);
@@ -678,7 +720,17 @@ impl Property for C14 {
                 for (pi, res) in row.iter().enumerate() {
                     let f = sc.probe_faces[pi];
                     let alone = match res {
-                        OpResult::Done(b) => *b,
+                        OpResult::Done(b) => {
+                            if b[0] != b[1] || b[0] != b[2] {
+                                out.push(Violation::new(
+                                    "modes-disagree-on-a-face",
+                                    &opname,
+                                    format!("face {} taken alone: Keep says the criterion is {}, Remove says {}, Add says {}", f, b[0], b[1], b[2]),
+                                    &[vi],
+                                ));
+                            }
+                            b[0]
+                        }
                         OpResult::Panic(m) => {
                             out.push(Violation::new("panic", &opname, format!("singleton selection of face {}: {}", f, m), &[vi]));
                             continue;
